@@ -404,7 +404,7 @@ pub fn run_source(rt: &CRuntime, src: &str, argv: &[String], plan: &EnvPlan, key
         Err(LoadErr::Text(v)) => return Verdict::Viol("Text".into(), format!("text not executable: {}", v.msg)),
         Err(LoadErr::Harness(m)) => return Verdict::Harness(format!("x86 loader: {m}")),
     };
-    let opts = ExecOpts { step_budget: 4000 * f.reference.steps + 100_000, check_heap, record_snaps: 0, print_hook: None };
+    let opts = ExecOpts { step_budget: (400 * f.reference.steps + 100_000).min(60_000_000), check_heap, record_snaps: 0, print_hook: None };
     let r = run_exe(rt, Some(prog), f.n_args, argv, plan, &opts);
     stats.executions += 1;
     stats.driver_main_calls += 1;
@@ -482,7 +482,7 @@ pub fn run_source_a64(src: &str, args: &[i64], plan: &EnvPlan, keys: u64, stats:
         Err(LoadErr::Text(v)) => return Verdict::Viol("Text".into(), format!("aarch64 text not executable: {}", v.msg)),
         Err(LoadErr::Harness(m)) => return Verdict::Harness(format!("aarch64 loader: {m}")),
     };
-    let opts = ExecOpts { step_budget: 4000 * f.reference.steps + 100_000, check_heap: true, record_snaps: 0, print_hook: None };
+    let opts = ExecOpts { step_budget: (400 * f.reference.steps + 100_000).min(60_000_000), check_heap: true, record_snaps: 0, print_hook: None };
     let (o, _) = crate::a64::exec(&prog, args, plan, &opts);
     stats.executions += 1;
     stats.instructions += o.steps;
@@ -1183,7 +1183,7 @@ pub fn selftest(n: u64) -> i32 {
             skipped += 1;
             continue;
         };
-        let opts = ExecOpts { step_budget: 4000 * f.reference.steps + 100_000, check_heap: false, record_snaps: 0, print_hook: None };
+        let opts = ExecOpts { step_budget: (400 * f.reference.steps + 100_000).min(60_000_000), check_heap: false, record_snaps: 0, print_hook: None };
         let emu = run_exe(&rt, Some(prog), f.n_args, &argv, &plan, &opts);
         if emu.outcome.as_ref().map(|o| o.viol.is_some()).unwrap_or(true) {
             skipped += 1;
